@@ -23,4 +23,5 @@ func TestDriver(t *testing.T) {
 		seed = 1
 	}
 	d(t, os.Getenv("VERIF_IN"), os.Getenv("VERIF_OUT"), seed)
+	CloseRoundTrip()
 }
